@@ -1,5 +1,8 @@
 import Pk.Lift
 import Pk.FitLaws
+import Pk.XLocInv
+import Pk.PredictLaws
+import Properties.C01
 /-! # C16 — lift/retract helpers agree with transform for every episode flag
 
 The model (`Pk/Lift.lean`) is the six helpers exactly as the code slices and pads raw matrices whose first
@@ -87,5 +90,36 @@ theorem C16_retract_input_block (call : Option Bool) (Y : Raw α) :
           r.take (epCols (call.getD F.fitEp)) ++ r.drop (F.w.1 + epCols (call.getD F.fitEp)) := by
   unfold retractInput
   cases call.getD F.fitEp <;> simp [epCols]
+
+section inverse
+variable {β : Type} [Add β] [Mul β] [OfNat β 0] (ops : Ops β) (okp : β → Prop) (p : Pipe β Kind)
+
+/-- **`retract_state` inverts `lift_state` on the trailing samples** (episode level): retracting the lifted state of
+an episode of states returns the trailing `n − loss + gain` states.  Uses the round trip (C01) on the zero-input
+padding and the state-block locality of the inverse. -/
+theorem C16_retract_state_inv (hL : ops.Lawful okp) (w' : Nat × Nat) (hfit : Stage.fit p.s p.w = .ok w')
+    (X : List (List β)) (hX : ∀ x ∈ X, x.length = p.w.1)
+    (hdom : Stage.dom (rowFn ops okp) p.s (X.map fun x => ⟨x, zeros p.w.2⟩))
+    (hmin : Stage.nSamplesIn p.s 1 ≤ X.length) :
+    retractStateEp (rowFn ops okp) p (liftStateEp (rowFn ops okp) p X)
+      = lastN (X.length - Stage.loss p.s + Stage.gain p.s) X := by
+  obtain ⟨X0, hX0⟩ : ∃ X0 : Ep β, X0 = X.map fun x => ⟨x, zeros p.w.2⟩ := ⟨_, rfl⟩
+  have hT : Typed p.w.1 p.w.2 X0 := by
+    intro r hr
+    simp only [hX0, List.mem_map] at hr
+    obtain ⟨x, hx, rfl⟩ := hr
+    exact ⟨hX x hx, by simp [zeros]⟩
+  have hlen0 : X0.length = X.length := by simp [hX0]
+  have hx0 : X0.map (·.x) = X := by simp [hX0, List.map_map, Function.comp_def]
+  unfold retractStateEp liftStateEp
+  rw [← hX0] at hdom ⊢
+  have hx : (((Stage.tr (rowFn ops okp) p.s X0).map (·.x)).map
+        (fun t => (⟨t, zeros (p.wOut (rowFn ops okp)).2⟩ : Row β))).map (·.x)
+      = (Stage.tr (rowFn ops okp) p.s X0).map (·.x) := by
+    simp [List.map_map, Function.comp_def]
+  rw [Stage.inv_x_local (rowFn ops okp) (rowFn_xlocInv ops okp) p.s p.w _ (Stage.tr (rowFn ops okp) p.s X0) hx]
+  have hrt := Pk.C01.C01_roundtrip_ep ops okp hL p.s p.w.1 p.w.2 w' hfit X0 hT hdom (by rw [hlen0]; exact hmin)
+  rw [hrt, ← lastN_map, hlen0, hx0]
+end inverse
 
 end Pk.C16
